@@ -7,4 +7,4 @@ R=$1; P=$2; K=$3; WT=/tmp/wt/r${R}_$P
 SEED_WT=$WT SEED_SRC=/tmp/seedout$R SEED_TAG=r${R}_ /verif/tools/confirm_seed.sh $P $K || exit 1
 D=/verif/seeded/${P}_r${R}_$K
 [ -d $D ] || exit 1
-/verif/tools/seedrun_wt.sh $P $D/patch.diff $WT quick | tee $D/detected_by
+/verif/tools/seedrun_wt.sh $P $D/patch.diff $WT quick | tee $D/check_output.txt
